@@ -202,7 +202,8 @@ MonoComparable(b1, b2) == b1 = b2 \/ (Grows(b1[1], b2[1]) /\ Grows(b1[2], b2[2])
 (*              result (exact rational arithmetic on the output coordinates)]*)
 (***************************************************************************)
 Clauses == {"NegativeRejected", "ValidGeometry", "Domain", "Contains", "ExactWidening",
-            "BoundsGrowExact", "BoundsGrowRound", "BoundsGrowRoundStrict", "BoundsGrowFolded", "BoundsGrowFlat", "BoundsGrowFlatStrict", "Monotone"}
+            "BoundsGrowExact", "BoundsGrowRound", "BoundsGrowRoundStrict", "BoundsGrowFolded", "BoundsGrowFlat", "BoundsGrowFlatStrict", "Monotone",
+            "RealValid", "RealZeroBufferIdentity", "RealContains"}
 
 Good(r) == r.raised = ""
 \* bounds of the result in the sense of compute_bounds (an interval spans all frequencies)
@@ -248,7 +249,24 @@ RunHolds(cl, g, b, e, probes, r) ==
       [] cl = "BoundsGrowFlatStrict" -> (~neg /\ HasBounds(r) /\ FlatCase(g, b)) =>
             LET t == Target(g, b) IN GrowTo(ObsBounds(r), [i \in 1..4 |-> LInt(t[i])], b)
 
-Holds(cl, o) ==
+(***************************************************************************)
+(* Time intervals on times that are NOT lattice values (two-decimal times  *)
+(* such as 43.28 s, passed as the doubles nearest to them).  o.in =         *)
+(* [real, start, end, buf] (decimal numerals), o.out = [raised, type,      *)
+(* ins, ine, rs, re : input and result ends as limb numbers (exact: these  *)
+(* doubles have fewer than 64 fraction bits), hin, hout : the same two     *)
+(* pairs as float.hex strings].  A zero buffer must return the interval    *)
+(* bit for bit ("exactly the interval widened by the buffers"); any buffer *)
+(* must give an interval that contains the original -- on the doubles.     *)
+(***************************************************************************)
+RealClauses == {"RealValid", "RealZeroBufferIdentity", "RealContains"}
+RealHolds(cl, o) ==
+    LET r == o.out  ok == r.raised = "" /\ r.type = "TimeInterval" IN
+    CASE cl = "RealValid"              -> ok
+      [] cl = "RealZeroBufferIdentity" -> (ok /\ o.in.buf = "0") => r.hout = r.hin
+      [] cl = "RealContains"           -> ok => LLe(r.rs, r.ins) /\ LLe(r.ine, r.re)
+      [] OTHER -> TRUE
+LatticeHolds(cl, o) ==
     LET c == o.in
         e1 == IF "e1" \in DOMAIN c THEN c.e1 ELSE NoTiny
         e2 == IF "e2" \in DOMAIN c THEN c.e2 ELSE NoTiny IN
@@ -257,4 +275,7 @@ Holds(cl, o) ==
           /\ Len(o.out.r1.inside) = Len(c.probes) /\ Len(o.out.r2.inside) = Len(c.probes)) =>
              \A i \in DOMAIN c.probes : o.out.r1.inside[i] => o.out.r2.inside[i]
     ELSE RunHolds(cl, c.g, c.b1, e1, c.probes, o.out.r1) /\ RunHolds(cl, c.g, c.b2, e2, c.probes, o.out.r2)
+IsReal(o) == "real" \in DOMAIN o.in
+Holds(cl, o) ==
+    IF IsReal(o) THEN RealHolds(cl, o) ELSE IF cl \in RealClauses THEN TRUE ELSE LatticeHolds(cl, o)
 =============================================================================
